@@ -132,6 +132,14 @@ def nondeterminism(ck):
                     if isinstance(node, ast.JoinedStr) and any(x is c for x in ast.walk(node)):
                         first = node.values[0]
                         ok = isinstance(first, ast.Constant) and str(first.value).startswith("#")
+                    # "# hostname={}".format(gethostname())  /  "# hostname=" + gethostname()  /  "# hostname=%s" % gethostname()
+                    if isinstance(node, ast.Call) and isinstance(node.func, ast.Attribute) and node.func.attr == "format" \
+                            and isinstance(node.func.value, ast.Constant) and str(node.func.value.value).startswith("#") \
+                            and any(x is c for a in node.args for x in ast.walk(a)):
+                        ok = True
+                    if isinstance(node, ast.BinOp) and isinstance(node.op, (ast.Add, ast.Mod)) and isinstance(node.left, ast.Constant) \
+                            and str(node.left.value).startswith("#") and any(x is c for x in ast.walk(node.right)):
+                        ok = True
                 ck.judge(ok, "C09.2", short(f) + ":socket.gethostname", where(f, c),
                          "host name feeds only a `#` comment line of the header", found=ast.unparse(c))
                 continue
